@@ -211,4 +211,17 @@ def replay(path, v):
         return
     if isinstance(data, dict) and "behaviour" in data:
         return cx.replay(path, v, pid=PID, pkg="c18")
+    if isinstance(data, dict) and "notes" in data and "counters" in data:
+        # result file of the representative history of finding F4: run it again
+        binp = vlib.go_build_test(PID, "c18")
+        f4, f4path = run_f4(binp, os.path.join(vlib.OUT, PID))
+        c = f4["counters"]
+        for line in f4.get("notes", []):
+            log("  " + line)
+        if c.get("over_limit") or c.get("resend_refused"):
+            if [f for f in vlib.known_findings(PID) if f["key"] == "F4"]:
+                v.known_finding("F4", "representative history reproduces: %d unexpired alerts under limit 3" % c.get("unexpired_shown", 0))
+            else:
+                v.violation("representative history of F4: %d unexpired alerts under limit 3" % c.get("unexpired_shown", 0), [f4path])
+        return
     silcommon.replay_one(PID, path, v)
